@@ -513,8 +513,13 @@ class Fetcher:
                         # cancellation
                         if not task.done():
                             task.cancel()
-                        with contextlib.suppress(asyncio.CancelledError):
-                            await task
+                        # NOTE: don't `await task` under `suppress` here. If
+                        # `close()` cancels this routine while it waits, the
+                        # cancellation would be handed to `task` (or swallowed
+                        # by `suppress`) and `close()` would hang forever.
+                        await asyncio.wait([task])
+                        if not task.cancelled():
+                            task.result()
                     self._pending_tasks.clear()
                     self._records.clear()
 
